@@ -20,6 +20,13 @@ pub fn title_sets(tier: Tier, f1: (u32, u32), f2: (u32, u32), f4: (u32, u32)) ->
         sets.push(TitleSet { name: format!("F1<={}", a), l, titles: Titles::Chars { fam: fam1(l), lo: 0, hi: a }, nctx: 3, block: 500 });
         sets.push(TitleSet { name: format!("F2<={}", b), l, titles: Titles::Chars { fam: fam2(l), lo: 0, hi: b }, nctx: 2, block: 500 });
         sets.push(TitleSet { name: format!("F4<={}", c), l, titles: Titles::Chars { fam: fam4(l), lo: 0, hi: c }, nctx: 2, block: 500 });
+        // composition: base, precomposed, combining mark, upper-case base, space (titles typed in decomposed form and with capitals)
+        sets.push(TitleSet { name: format!("F5<={}", c), l, titles: Titles::Chars { fam: fam5(l), lo: 0, hi: c }, nctx: 2, block: 500 });
+        // capitals next to a composable sequence in otherwise ordinary words
+        let s = sym(l);
+        let f5 = fam5(l);
+        let mixed = vec![f5[0], f5[2], f5[3], s.c, s.c2.to_uppercase().next().unwrap_or(s.c2), ' '];
+        sets.push(TitleSet { name: format!("F5caps<={}", b), l, titles: Titles::Chars { fam: mixed, lo: 0, hi: b }, nctx: 1, block: 500 });
     }
     sets
 }
